@@ -40,6 +40,17 @@ def _unhex(h):
     return b"" if h == "-" else bytes.fromhex(h)
 
 
+def _reg_used_differs(words):
+    """reghist observation 'ok used=A,fresh=B;used=..': is some A different from its B?"""
+    if len(words) < 2:
+        return False
+    for step in words[1].split(";"):
+        used, _, fresh = step.partition(",")
+        if used[len("used="):] != fresh[len("fresh="):]:
+            return True
+    return False
+
+
 def classify(run, case, impl, model):
     op = case.split()[0]
     i, m = impl.split(), model.split()
@@ -49,6 +60,12 @@ def classify(run, case, impl, model):
         if len(m) >= 3 and i[2] != m[2]:
             return "quote/readback-differs"
         return "quote/literal-differs"
+    if op == "liststr":
+        if i[0] != "ok" or m[0] != "ok" or len(i) < 3 or len(m) < 3:
+            return "list-string/impl=%s/model=%s" % (i[0], m[0])
+        if i[2] != m[2]:
+            return "list-string/readback-differs-from-accessors"
+        return "list-string/text-differs-from-model"
     if op == "render":
         if i[0] != "ok" or m[0] != "ok" or len(i) < 3 or len(m) < 3:
             return "render/impl=%s/model=%s" % (i[0], m[0])
@@ -63,6 +80,12 @@ def classify(run, case, impl, model):
         if i[1] != m[1]:
             return "history/text-differs-from-model"
         return "history/budget-differs"
+    if op == "reghist":
+        if i[0] != "ok":
+            return "encoder-history/%s" % i[0]
+        if _reg_used_differs(i):
+            return "encoder-history/used-differs-from-fresh"
+        return "encoder-history/differs-from-model"
     if op == "hostile":
         return "hostile/%s" % i[0]
     if op == "recrender":
@@ -84,8 +107,10 @@ def impl_violation(run, case, impl):
         return w != "safe"
     if op == "recrender":
         return w in ("crash", "panic", "hang")
-    if op in ("render", "history"):
+    if op in ("render", "history", "liststr"):
         return w in ("panic", "hang")
+    if op == "reghist":
+        return w != "ok" or classify(run, case, impl, impl) == "encoder-history/used-differs-from-fresh"
     return False
 
 
@@ -103,6 +128,10 @@ def violates(run, case, impl, model):
         return any(c < 32 or c >= 127 for c in lit)   # not printable ASCII
     if op == "append":
         return True                          # the destination prefix was not kept / literal differs
+    if op == "liststr":
+        if i[0] != "ok":
+            return True
+        return len(i) >= 3 and len(m) >= 3 and i[2] != m[2]   # String() does not read back to the At(i) values
     if op == "render":
         if i[0] != "ok":
             return True                      # Marshal failed or panicked on a well-typed value
@@ -114,6 +143,11 @@ def violates(run, case, impl, model):
             return True
         same = i[2].split("=")[1].split("/")
         return same[0] != same[1]            # some later Encode differed from the first or failed
+    if op == "reghist":
+        if i[0] != "ok":
+            return True
+        # an Encode on the encoder with the history differs from a fresh encoder on the same registry
+        return classify(run, case, impl, model) == "encoder-history/used-differs-from-fresh"
     if op == "hostile":
         return True                          # panic / hang / output beyond the bound
     if op == "recrender":
